@@ -251,9 +251,10 @@ func init() {
 	registry["C07"] = func(c *Ctx) *orch.Outcome {
 		return runModelCheck(c, modelSpec{Level: "exploration",
 			Rule: "one evaluation = one conversion (all asset pairs of the era, amounts 1..balance incl. tiny ones, rates drifting every block) submitted at h; the reference rule holds it until the first later block with rates r and credits floor(in×S/D) with the rates of r (S=min(spot,avg), D=max(spot,avg) from PIP-10); compared with balances, recorded status height and recorded to_amount; additionally out×D_spot ≤ in×S_spot is asserted on the recorded amounts. Distinct non-trivial = conversions whose recorded amount was compared, of which those priced by an average ≠ spot are counted separately.",
-			Profiles: func(c *Ctx) []modelParams { return featProfiles(c, 3, 24, 2, "c07", "gaps", "avg-unavailable") },
+			Profiles: func(c *Ctx) []modelParams { return featProfiles(c, 3, 24, 2, "c07", "gaps", "avg-unavailable", "ungraded-snapshot") },
 			NonTrivial: func(rs []*orch.Result) (int64, map[string]interface{}) {
-				ex := sumCounters(rs, "conversion_amounts_checked", "value_bounds_checked", "conversions_priced_by_average", "events_C07")
+				ex := sumCounters(rs, "conversion_amounts_checked", "value_bounds_checked", "conversions_priced_by_average", "events_C07",
+					"unrated_blocks_with_conversions_waiting", "unrated_snapshot_blocks_from_v202_with_conversions_waiting", "waiting_batches_checked_in_unrated_blocks")
 				return orch.SumCounter(rs, "conversion_amounts_checked"), ex
 			}, Min: 200})
 	}
@@ -272,7 +273,7 @@ func init() {
 				for _, p := range []string{"opr-reward", "spr-reward", "fct-burn"} {
 					k = append(k, distinctWithPrefix(rs, "event_kinds", p)...)
 				}
-				ex := sumCounters(rs, "coinbase_rows_checked", "events_C11")
+				ex := sumCounters(rs, "coinbase_rows_checked", "events_C11", "spr_records_with_odd_length_staker_id")
 				ex["reward_event_era_pairs"] = k
 				return int64(len(k)), ex
 			}, Min: 12})
@@ -281,9 +282,10 @@ func init() {
 		return runModelCheck(c, modelSpec{Level: "exploration",
 			Rule: "one evaluation = one block whose OPR and SPR winners agree, differ inside the band, sit one unit inside/outside its edge, or (from 2.0.2) differ beyond it for some assets; the pn_rate rows of the block must be exactly the rule's (winner[0] of each grade, band of the era, PEG by pricing phase from the previous state's supplies), a block without winners must have no rows and execute no held conversion, and rows of earlier heights must never change. Distinct non-trivial = rated blocks compared, per era.",
 			Assume: []string{"OPR outside the SPR band before 2.0.2 (recorded finding: the block returns early) runs only in the tagged scenario"},
-			Profiles: func(c *Ctx) []modelParams { return featProfiles(c, 3, 24, 3, "c12", "gaps") },
+			Profiles: func(c *Ctx) []modelParams { return featProfiles(c, 3, 24, 3, "c12", "gaps", "ungraded-snapshot") },
 			NonTrivial: func(rs []*orch.Result) (int64, map[string]interface{}) {
-				ex := sumCounters(rs, "rated_blocks_compared", "rate_blocks_checked")
+				ex := sumCounters(rs, "rated_blocks_compared", "rate_blocks_checked",
+					"unrated_blocks_with_conversions_waiting", "unrated_snapshot_blocks_from_v202_with_conversions_waiting", "waiting_batches_checked_in_unrated_blocks")
 				ex["eras_with_rated_blocks"] = orch.UnionDistinct(rs, "rate_eras")
 				return orch.SumCounter(rs, "rated_blocks_compared"), ex
 			}, Min: 100})
@@ -347,7 +349,7 @@ func init() {
 					k = append(k, distinctWithPrefix(rs, "event_kinds", p)...)
 				}
 				al := orch.UnionDistinct(rs, "v20dev_alignment")
-				ex := sumCounters(rs, "events_C15")
+				ex := sumCounters(rs, "events_C15", "payout_heights_without_opr_and_spr_entries")
 				ex["scheduled_event_kinds"] = k
 				ex["v20dev_mod_144_values"] = al
 				ex["v202_mod_144_values"] = orch.UnionDistinct(rs, "v202_alignment")
